@@ -224,8 +224,8 @@ def check(rep, F, tier, replay=None):
                 good = True
         if not good:
             rep.violation("WIT-stored", key, "%s hands its witness only to `entry(voter).or_insert(..)`: when the voter already has an entry (a second vote of the same voter) the new witness - its script, datum, redeemer, declared signers, reference input - is silently dropped while the call returns Ok" % key, {})
-    from ruleutil import datum_id_rule
-    datum_id_rule(rep, F)
+    from ruleutil import datum_rules
+    datum_rules(rep, F)
     # BOOT-set: one fake bootstrap witness per distinct Byron address over inputs AND collateral
     rep.rule("BOOT-set", "fake_full_tx merges the Byron addresses of inputs and collateral in an ordered set before counting / creating fake bootstrap witnesses (an address used for both is witnessed once)")
     fid = find_fn(rep, F, "builders::tx_builder::fake_full_tx")
